@@ -328,7 +328,8 @@ func genScenario(g *Gen, pf scnProfile) Case {
 		case r < 95:
 			return illegalNames[g.Intn(len(illegalNames))]
 		case r < 97:
-			return strings.Repeat("n", 60)
+			// long, and longer than a directory entry can be (NAME_MAX = 255)
+			return strings.Repeat("n", []int{60, 60, 255, 300}[g.Intn(4)])
 		default:
 			return ""
 		}
@@ -363,6 +364,8 @@ func genScenario(g *Gen, pf scnProfile) Case {
 			nn := legalNames[g.Intn(len(legalNames))]
 			if g.Chance(20, 100) {
 				nn = pickName()
+			} else if g.Chance(4, 100) {
+				nn = strings.Repeat("L", 300)
 			}
 			st["args"] = hxs([]string{pickName(), nn})
 			names = append(names, nn)
